@@ -343,6 +343,11 @@ def vals(rng, w, nrand, cap=None):
         keep.update(rng.sample(b, cap - 12))
         b = sorted(keep)
     out = list(b)
+    if w == 128:
+        # IPv4-mapped / IPv4-compatible blocks (printed with a dotted tail by some dialects) and small values
+        for base in (0, 0xffff00000000, 0xfffe00000000):
+            for d in (0, 1, 0x01020304, 0xffffffff, rng.getrandbits(32)):
+                out.append(base + d)
     for _ in range(nrand):
         r = rng.random()
         if r < 0.4:
@@ -549,3 +554,18 @@ def cases(rng, tier):
         yield ("c15_b85_dec", [ref_b85(v)], "mal_b85")
     yield ("c15_b85_dec", ["~" * 20], "mal_b85")
     yield ("c15_b85_dec", [""], "mal_b85")
+
+
+# ---- object-lifecycle checks (harness/lifecycle.py): objects with a history behave like fresh ones, results do not
+# alias operands, failed mutators change nothing.  The functional model has no hidden state: its answer is "no discrepancy".
+from harness import lifecycle as _life
+IMPL.update(_life.IMPL)
+ORACLE.update(_life.ORACLE)
+EXACT = tuple(EXACT) + ("life",)
+RULE = RULE + " | lifecycle: observe-mutate-observe vs a fresh object, aliasing of results, failure atomicity (addr, eui)"
+_cases_without_life = cases
+
+
+def cases(rng, tier):
+    yield from _cases_without_life(rng, tier)
+    yield from _life.cases(rng, tier, {'addr', 'eui'})
